@@ -11,7 +11,7 @@ from vlib.core import run as sh
 MODULES = ["TLVerif.Props.C34"]
 THEOREMS = ["TLVerif.Props.C34." + t for t in [
     "utf8_valid_iff_wellformed", "string_valid_and_denotes", "string_invalid_is_base64_object", "base64_roundtrip",
-    "jlexer_unescape_sound", "string_roundtrip", "string_writer_injective", "uint_is_json_number", "int_is_json_number",
+    "jlexer_unescape_sound", "string_roundtrip", "base64_form_accepted_for_any_content", "string_writer_injective", "uint_is_json_number", "int_is_json_number",
     "uint32_roundtrip", "uint64_roundtrip", "int32_roundtrip", "int64_roundtrip", "uint_out_of_range_rejected",
     "float_special", "float_class_fields", "float_finite_roundtrip_partial", "float_writer_cases"]]
 SOURCES = ["TLVerif.Jsonp." + m for m in ["Utf8", "Base64", "Writer", "Reader", "Driver", "Utf8Lemmas", "Base64Lemmas",
@@ -386,7 +386,8 @@ def run_check(c):
     for p in float_patterns(c, rng, 11, 52):
         lines.append("jsonp.wf64 %016x" % p)
     rng.shuffle(lines)  # long strings are spread over the worker processes
-    res1 = c.tie("writers", lines, impl, model, canon=canon)
+    henv = dict(os.environ, GOMAXPROCS="2")   # 16 harness processes run side by side
+    res1 = c.tie("writers", lines, impl, model, canon=canon, env=henv)
     for l, a, _ in res1:
         oracle_writer(c, l, a)
 
@@ -460,7 +461,7 @@ def run_check(c):
         lines2.append("jsonp.rfn%s %s" % (rng.choice(["32", "64"]), hx(rand_float_text(rng))))
     lines2 = list(dict.fromkeys(lines2))
     rng.shuffle(lines2)
-    res2 = c.tie("readers", lines2, impl, model)
+    res2 = c.tie("readers", lines2, impl, model, env=henv)
     for l, a, _ in res2:
         if "DIFFERS" in a:
             c.oracle_fail(l, "string/[]byte (or float32/float64) reader variants differ: " + a[:160], l)
@@ -507,7 +508,7 @@ def run_check(c):
             t = bytes(rng.choice(list(b"AQg/+=\n\r -_09az")) for _ in range(rng.below(10)))
         lines3.append("jsonp.b64d " + hx(t))
     lines3 = list(dict.fromkeys(lines3))
-    res3 = c.tie("library", lines3, impl, model)
+    res3 = c.tie("library", lines3, impl, model, env=henv)
     for l, a, _ in res3:
         f = l.split(" ")
         if "DIFFERS" in a:
